@@ -94,8 +94,21 @@ def expected_callee(cname):
 
 
 def body(chk):
+    # the wrappers are analysed in the default configuration and again with -DNDEBUG (release builds compile assert() away: a wrapper whose
+    # forwarding call sits inside an assert forwards nothing there)
+    body_in(chk)
+    chk.config_extra, chk.name_suffix = ('-DNDEBUG',), '[NDEBUG]'
+    try:
+        body_in(chk)
+    finally:
+        chk.config_extra, chk.name_suffix = (), ''
+    chk.bounds['build_configurations'] = ['default', '-DNDEBUG']
+
+
+def body_in(chk):
     try:
         w = chk.world(units=['cmasa'])
+        w.ex.step_budget = 300000       # the wrappers are a few instructions: a path that needs more is a runaway loop (e.g. an unsigned bound that wrapped)
     except RuntimeError as e:
         # clang refuses a wrapper whose definition conflicts with its prototype in masa.h (g++ only warns when the definition sits in a
         # namespace): a C caller, who sees the prototype, cannot be calling the function that is defined
@@ -108,7 +121,9 @@ def body(chk):
         chk.notes.append('cmasa.cpp does not compile with clang (conflicting types for %r): the remaining wrappers were not analysed in this run' % conflicts)
         chk.solve_all()
         return
-    wc = chk.world()              # full program: used to run the real C++ templates where a wrapper returns a constant
+    wc = chk.world()
+    wc.ex.step_budget = 1000000
+    # full program: used to run the real C++ templates where a wrapper returns a constant
     nmax = 4 if chk.tier == 'quick' else 8
     chk.assumptions += ['MASA::masa_*<double> templates are uninterpreted in the wrapper analysis (arguments and abstract library state); their own behaviour is C10-C16',
                         'caller buffers are large enough (C has no way to pass their size)', 'array lengths enumerated 0..%d with symbolic contents' % nmax]
